@@ -119,13 +119,11 @@ def sequences(tier):
             if valid(s):
                 seqs.append(s)
     if tier == "thorough":
-        for s in itertools.product(names, repeat=3):
-            if valid(s):
-                seqs.append(s)
+        core = [n for n in names if n not in ("ELIFNOELSE", "FOR2MIX", "PP", "IFELSE2", "ELIF2", "FORDOWN", "FORSTEP", "FORJ", "GOSUB2", "IFSS", "NEXTI", "FORIF", "FORLINE", "NEXTBARE", "STOP", "END", "SET", "IFLS", "IFSL", "ELIFSL", "IFEND", "FORVAR")]
     else:
         core = ["P", "IFL", "IFSG", "IFELSE", "IFLL", "ELIF", "GOSUB", "ONGOTO", "FORBARE", "FOR2BARE", "FOR", "IFSTOP", "GOTO"]
-        for s in itertools.product(core, repeat=3):
-            seqs.append(s)
+    for s in itertools.product(core, repeat=3):
+        seqs.append(s)
     return seqs
 
 
